@@ -120,7 +120,14 @@ Create ==
     /\ Record([op |-> "create"])
     /\ UNCHANGED <<live, lastSz, delivered, ideal, ntok, init>>
 
-DNext == Len(hist) < MaxOps /\ (Append1 \/ AppendPartial \/ Complete \/ Rotate \/ Truncate \/ Create)
+\* an old rotated file is pruned (a Remove event for a sibling of the live file, outside any rotation): the live file
+\* has not changed, nothing is read, nothing is forgotten. Not twice in a row (it would only stutter).
+Prune ==
+    /\ (IF hist = <<>> THEN TRUE ELSE hist[Len(hist)].op # "prune")
+    /\ Record([op |-> "prune"])
+    /\ UNCHANGED <<live, exists, offset, lastSz, delivered, ideal, ntok, init>>
+
+DNext == Len(hist) < MaxOps /\ (Append1 \/ AppendPartial \/ Complete \/ Rotate \/ Truncate \/ Create \/ Prune)
 DSpec == DInit /\ [][DNext]_dvars
 
 \* C20
